@@ -42,6 +42,36 @@ CHECKS['C03'] = dict(
          'under at most one listed key (excludes model-only counterexamples to greedy matching). Counterexamples are realised with real '
          'Ed25519 keys and signatures before being reported.',
     technique=TECH)
+CHECKS['C07'] = dict(
+    text='Inductive one-step check (P1): from an arbitrary state satisfying the invariant (stack of listed shapes with symbolic contents, '
+         'symbolic max_items / max_item_size / call count / call limit, 6 symbolic operand bytes) one instruction of each of the 92 opcodes '
+         'and of NOP codes is executed from the real source; on every path (ok or raising) the invariant holds again, no deque drop event '
+         'occurs, the pointer neither moves backwards nor leaves the tape, nested runs get count+1 <= limit, loops run at most limit '
+         'bodies, and every stubbed allocation size is <= 255*max_item_size. Nested interpreter runs are summarised (P2).',
+    design_ref='DESIGN.md section 4 C07',
+    note='Trusted: SX engine (witness replay on paths without abstraction), z3, the P2 body summary, sound over-approximations of values '
+         '(products/quotients, long digit strings, group operations and float arithmetic are replaced by unconstrained values of the right '
+         'size because only shapes matter for the invariant). Finding F3 (OP_RANDOM) was repaired in /repo (fix: commit 2ab58ad).',
+    technique=TECH)
+CHECKS['C08'] = dict(
+    text='One-step check (P1) of every opcode with a recording cache model: the write/delete log contains only byte-string keys (plus the '
+         "interpreter's control flag cache['returned'], only from control instructions), every embedder-supplied string-keyed entry is the "
+         'identical object afterwards on ok and raising paths, no new string key appears, and only the documented readers read string keys. '
+         'Cache keys read from tape (length 0..10) and stack are symbolic, so keys spelling sigfield1 / timestamp are found by the solver.',
+    design_ref='DESIGN.md section 4 C08',
+    note='Trusted: SX engine, z3, the P2 body summary (a body writes only byte keys and the control flag: induction over nesting), the same '
+         'value over-approximations as C07.',
+    technique=TECH)
+CHECKS['C20'] = dict(
+    text='(i) one dispatch step of the real run_tape for a symbolic unassigned opcode (all 164) and symbolic count byte, stack depth 0..6: '
+         'removes exactly count items or raises, pointer +2, nothing else changes; (ii) NOPn compiles to [n, count] and the decompiled listing '
+         'recompiles to identical bytes for every code and every count byte; (iii) a fork op of the stated family installed through the real '
+         'add_soft_fork at a symbolic free code is simulated step-for-step by the plain VM whenever it does not raise, and name, alias and NOPn '
+         'spellings compile to identical bytes on both VMs.',
+    design_ref='DESIGN.md section 4 C20',
+    note='Trusted: SX engine (witness replay), z3, the definition of the soft-fork op family, the step-to-script induction argument. Finding '
+         'F6c (NOP count >= 128 did not round-trip) was repaired in /repo (fix: commit 03d2a97).',
+    technique=TECH)
 NOT_APPLICABLE = {}
 NOTES = ('Exit codes of every check: 0 held on everything explored; 1 + VIOLATION line for a counterexample that was '
          'replayed on the real package and is not a listed known finding; 2 harness error / unsupported construct / '
